@@ -19,7 +19,7 @@ What is NOT true on the real code (excluded by hypothesis, each with a counterex
   impedances of the file are rescaled (`mpc_base50_line_rescaled`, `raw_branch_sbase50_rescaled`), and
   an exported-and-reimported system is a different one (`mpc_roundtrip_base50_not_equivalent`);
 * `system2mpc` writes loads by assignment: two loads on a bus collapse to the last one, a disconnected
-  load becomes a connected one (`mpc_two_loads_last_wins`, `mpc_offline_load_exported`);
+  load became a connected one on the pinned tree (repaired: `mpc_two_loads_witness`, `mpc_offline_load_witness`);
 * RAW two-winding transformers with `CZ = 2`: `MAG2` (system base) is stored as a winding-base admittance
   (`raw_xfmr_mag2_cz2_rescaled`).
 -/
@@ -210,12 +210,13 @@ theorem mpc_branch_roundtrip_partial (base d2r r2d : ℚ) (l : Line ℚ) (hb : b
     · simp [lineV, zSys, ySys, h1, hp, lit1, lit100]
   · simp [lineV, zSys, ySys, lit1, lit100, hphi, ht]
 
-/-- **Total connected load at every bus survives export → import** when each bus carries at most one load
-and every load is connected.  Both hypotheses are needed: `mpc_two_loads_last_wins`, `mpc_offline_load_exported`. -/
-theorem mpc_load_roundtrip_partial (base : ℚ) (hb : base ≠ 0) (ps : List (PQ ℚ)) (b : Int) (h : OneOnlinePerBus ps) :
+/-- **Total connected load at every bus survives export → import**, for ANY list of loads — several loads on one
+bus, loads out of service (full strength since the repair of `system2mpc`, which wrote the LAST load of a bus and
+ignored the status: `mpc-export-loads-last-wins`, `mpc-export-offline-load`). -/
+theorem mpc_load_roundtrip (base : ℚ) (hb : base ≠ 0) (ps : List (PQ ℚ)) (b : Int) :
     busLoadP (roundTripLoadP base ps b) b = busLoadP ps b := by
   have hL : busLoadP ps b * base / base = busLoadP ps b := by field_simp
-  simp only [roundTripLoadP, importLoad, exportPd_eq base b ps h, hL, lit0, Bool.and_eq_true, beq_iff_eq]
+  simp only [roundTripLoadP, importLoad, exportPd_eq base b ps, hL, lit0, Bool.and_eq_true, beq_iff_eq]
   split_ifs with hc
   · simp [busLoadP, hc.1, lit0]
   · simp [busLoadP, lit0]
@@ -223,7 +224,7 @@ theorem mpc_load_roundtrip_partial (base : ℚ) (hb : base ≠ 0) (ps : List (PQ
 /-- the round trip as one statement -/
 theorem mpc_roundtrip_equivalent_partial (base d2r r2d : ℚ) (hb : base = 100) (hd : r2d * d2r = 1)
     (ls : List (Line ℚ)) (hl : ∀ l ∈ ls, l.tap ≠ 0) (gs : List (Gen ℚ)) (sw : List Int)
-    (hs : ∀ g ∈ gs, sw.contains g.bus = g.slack) (ps : List (PQ ℚ)) (hp : OneOnlinePerBus ps) :
+    (hs : ∀ g ∈ gs, sw.contains g.bus = g.slack) (ps : List (PQ ℚ)) :
     (∀ l ∈ ls, (lineV base (importBranch d2r (exportLine r2d l))).r = l.r ∧
                (lineV base (importBranch d2r (exportLine r2d l))).x = l.x ∧
                (lineV base (importBranch d2r (exportLine r2d l))).b = l.b ∧
@@ -233,25 +234,24 @@ theorem mpc_roundtrip_equivalent_partial (base d2r r2d : ℚ) (hb : base = 100) 
     (∀ b, busLoadP (roundTripLoadP base ps b) b = busLoadP ps b) := by
   have hb0 : base ≠ 0 := by rw [hb]; norm_num
   refine ⟨fun l hm => ?_, fun g hg => mpc_gen_roundtrip base hb0 sw g (hs g hg),
-          fun b => mpc_load_roundtrip_partial base hb0 ps b hp⟩
+          fun b => mpc_load_roundtrip base hb0 ps b⟩
   have := mpc_branch_roundtrip_partial base d2r r2d l hb hd (hl l hm)
   exact ⟨this.1, this.2.1, this.2.2.1, this.2.2.2.1, this.2.2.2.2.1⟩
-
-example : OneOnlinePerBus [⟨1, 1, 1/2, 1/10⟩, ⟨4, 1, 3/10, 0⟩] := by
-  refine ⟨by simp, ?_⟩; intro p hp; simp at hp; rcases hp with rfl | rfl <;> rfl
 
 theorem mpc_roundtrip_base50_not_equivalent :
     (lineV 50 (importBranch (1 : ℚ) (exportLine 1 ⟨1, 2, 1, 100, 1/100, 1/10, 0, false, 1, 0, 0, 0, 0⟩))).r = 1/200 := by
   unfold importBranch exportLine lineV zSys isLine; norm_num
 
-theorem mpc_two_loads_last_wins :
+/-- the inputs that failed on the pinned tree: two loads on one bus (their sum 3 is exported now, not the last one),
+an out-of-service load (not exported as connected) -/
+theorem mpc_two_loads_witness :
     busLoadP [⟨1, 1, 1, 0⟩, ⟨1, 1, 2, 0⟩] 1 = (3 : ℚ) ∧
-    busLoadP (roundTripLoadP (100 : ℚ) [⟨1, 1, 1, 0⟩, ⟨1, 1, 2, 0⟩] 1) 1 = 2 := by
-  unfold roundTripLoadP importLoad exportPd exportQd; norm_num [lastOn, busLoadP]
+    busLoadP (roundTripLoadP (100 : ℚ) [⟨1, 1, 1, 0⟩, ⟨1, 1, 2, 0⟩] 1) 1 = 3 := by
+  unfold roundTripLoadP importLoad exportPd exportQd; norm_num [sumOn, busLoadP]
 
-theorem mpc_offline_load_exported :
-    busLoadP [⟨1, 0, 1, 0⟩] 1 = (0 : ℚ) ∧ busLoadP (roundTripLoadP (100 : ℚ) [⟨1, 0, 1, 0⟩] 1) 1 = 1 := by
-  unfold roundTripLoadP importLoad exportPd exportQd; norm_num [lastOn, busLoadP]
+theorem mpc_offline_load_witness :
+    busLoadP [⟨1, 0, 1, 0⟩] 1 = (0 : ℚ) ∧ busLoadP (roundTripLoadP (100 : ℚ) [⟨1, 0, 1, 0⟩] 1) 1 = 0 := by
+  unfold roundTripLoadP importLoad exportPd exportQd; norm_num [sumOn, busLoadP]
 
 /-! ## PSS/E RAW records: the parsed element is the textbook reading of the record -/
 
